@@ -82,6 +82,47 @@ def handle (req : Json) : Json :=
       match Visit.run cst with
       | .ok st => Json.mkObj [("synerr", (0 : Nat)), ("model", Visit.dumpJ st)]
       | .error c => Json.mkObj [("panic", c.kind), ("site", match c with | .nilDeref s => s | .assert s => s | .index s => s | .stack => "stack")]
+  | "disconf" | "dissearch" =>
+    match parseFull text with
+    | none => Json.mkObj [("error", "syntax")]
+    | some cst =>
+      match specOf cst with
+      | none => Json.mkObj [("error", "no-spec")]
+      | some S =>
+        match req.getObjVal? "prog" >>= Lua.progJ with
+        | .error e => Json.mkObj [("load_error", e)]
+        | .ok D =>
+          let table : List (String × String) := match req.getObjVal? "snake" with
+            | .ok (Json.obj kvs) => kvs.toList.filterMap fun (k, v) => v.getStr?.toOption.map fun x => (k, x)
+            | _ => []
+          let snake := fun n => (table.lookup n).getD n
+          if op = "disconf" then
+            let rs := Lua.explainDis S snake D
+            let c := Lua.confDis S snake D
+            Json.mkObj [("ok", c), ("consistent", rs.isEmpty == c),
+              ("reasons", Json.arr (rs.map fun r => Json.mkObj [("where", r.where_), ("cls", r.cls), ("expected", r.expected), ("got", r.got)]).toArray)]
+          else
+            let n := (req.getObjValAs? Nat "tries").toOption.getD 40
+            let seed := (req.getObjValAs? Nat "seed").toOption.getD 0
+            match S.packets.find? (·.root) with
+            | none => Json.mkObj [("error", "no-root")]
+            | some root =>
+              let res := (List.range n).foldl (fun (acc : List (String × Json)) i =>
+                if !acc.isEmpty then acc else
+                match Sample.genPacket S root.name (seed * 1000 + i) with
+                | none => acc
+                | some vs =>
+                  match Wire.enc S (fun _ => none) root.name vs [], Lua.ranges S snake root.name vs with
+                  | some bs, some (rs, _) =>
+                    let got := Lua.dissect D 64 bs
+                    if got = some (rs, bs.length) then acc else
+                      [("fail", "dissect"), ("message", Load.valToJ (.struct vs)), ("bytes", Load.bytesJ bs),
+                       ("expected", Json.arr ((rs.map fun (f, o, l) => Json.arr #[f, o, l]).toArray.push (Json.arr #["<end>", bs.length]))),
+                       ("got", match got with
+                          | some (g, off) => Json.arr ((g.map fun (f, o, l) => Json.arr #[f, o, l]).toArray.push (Json.arr #["<end>", off]))
+                          | none => Json.str "error (range out of bounds / undefined helper / nil key)")]
+                  | _, _ => acc) []
+              Json.mkObj (("tried", (n : Json)) :: res)
   | "conform" | "search" =>
     match parseFull text with
     | none => Json.mkObj [("error", "syntax")]
